@@ -126,6 +126,14 @@ def run(ctx):
 
         for it in range(ctx.n(90, 2500)):
             ws = mk_ws(rng); ws2 = mk_ws(rng)
+            if rng.random() < 0.2:
+                # names outside ASCII (valid JSON strings): what the tool prints must still be what the library computes
+                old = ws['channels'][0]['name']; new = old + '_μμ'
+                ws['channels'][0]['name'] = new
+                for o in ws['observations']:
+                    if o['name'] == old: o['name'] = new
+                ws['channels'][0]['samples'][-1]['name'] += '_t̄t'
+                ctx.tally('non_ascii_names', 1)
             for c, n in zip(ws2['channels'], ['D', 'E']): c['name'] = n
             ws2['observations'] = [{'name': c['name'], 'data': [float(rng.randint(1, 90)) for _ in c['samples'][0]['data']]} for c in ws2['channels']]
             for s_ in ws2['channels'][0]['samples'][:1]: pass
